@@ -34,6 +34,21 @@ are judged by C only (histogram connections_not_compared_with_model).
                      un-normalised target): signature wrong-response-for-request(keepalive).  Directed
                      sequences (keepalive_sequence_cases) mix ordinary requests with the ones the server
                      answers itself: un-normalised path -> 301, unknown path -> 404, HEAD, httperror events.
+ P  handler-return paths (c15paths.py; cases of kind 'path'): the same results produced the way applications produce
+                     them - a plain `request` handler returning the value; a Controller method through `expose` + the real
+                     Dispatcher; a coroutine handler yielding the pieces; `v = yield self.call(e)` / `yield self.wait(e)`
+                     and yielding the callee's result; `return self.fire(e)` (a Value filled in later, also by a callee that
+                     is itself a coroutine and answers 1-3 ticks later); a Value holding a filled Value; nobody handling the
+                     request; and the application raising NotFound / Forbidden / Unauthorized / Redirect / ValueError in the
+                     handler, in the coroutine after its first yield, or in the callee - HTTP/1.1 and 1.0, with and without
+                     keep-alive, each followed by a further request on the same connection.  The manager is ticked (tasks
+                     and queue) until quiescent.  B: wire == CV.HttpResp.serve for "the application produced body B with
+                     status S" (the `serve` op does not know the path); the decision code's inputs (request_success with
+                     the shape of the value, request_value_changed, request_failure, exception) and outputs (httperror /
+                     redirect / response events) recorded by a probe == CV.HttpResp.step folded over the observed inputs
+                     (`pathstep`), and the observed inputs == CV.HttpResp.trace for the handler shape (`pathtrace`).
+                     C: judged first: exactly one status line is written per request (no-response /
+                     N-responses-for-one-request), then everything of C above; signatures end in `via=<path>`.
  E  end to end     : (spec on impl only, no model) a real circuits.web.Server with Controllers on a
                      loopback socket in a background thread, SO_SNDBUF 64 KiB so that send() is partial;
                      http.client.HTTPConnection sends GET/HEAD, HTTP/1.1 keep-alive sequences and
@@ -55,6 +70,8 @@ import time
 import urllib.parse
 
 from framework import Infra, hx
+
+import c15paths as paths  # noqa: E402  (after framework: it puts the code under test on sys.path)
 
 FIXED_DATE = 'Thu, 01 Jan 2026 00:00:00 GMT'
 BODYLESS = (204, 304)
@@ -168,17 +185,25 @@ VIA_STATUS = {'dotdot': 301, 'dot': 301, 'unknown': 404}
 
 
 def request_target(rq, i):
+    if rq.get('path'):                      # handler-return paths (c15paths)
+        return paths.target(rq, i)
     return VIA_TARGET.get(rq.get('via'), '/c{i}').format(i=i)
 
 
 def expected_status(rq):
     if rq.get('via'):
         return VIA_STATUS[rq['via']]
+    if rq.get('exc'):                       # the application raised: the status of the three-way choice
+        return paths.exc_status(rq)
+    if rq.get('path') == 'nobody':
+        return 404
     return rq.get('status') or (500 if rq['body']['kind'] == 'httperror' else 200)
 
 
 def expected_location(rq, i):
     """the only Location a response to request i may carry (request_bytes sends `Host: x`)"""
+    if (rq.get('exc') or {}).get('cls') == 'Redirect':
+        return 'http://x' + paths.redirect_target(i)
     return f'http://x/c{i}' if rq.get('via') in ('dotdot', 'dot') else None
 
 
@@ -214,6 +239,8 @@ class Impl:
         """-> list of per-request observations:
               dict(acts=[('w', bytes)|('c',)], stale=bool, closed=bool, produced=bytes|None, exc=[...])"""
         from http15util import make_body  # noqa: F401  (import check)
+        if case.get('kind') == 'path':
+            return paths.run_conn(self, case, body_parts, request_bytes)
         if self.rig is None:
             self.new_rig()
         rig = self.rig
@@ -384,6 +411,8 @@ def features(case, idx):
         if idx > 0:
             tags.append('after-' + reqs[idx - 1]['method'])
         return ','.join(tags)
+    if rq.get('path'):
+        return ','.join(tags + path_features(case, idx))
     if st < 200:
         tags.append('1xx')
     elif st in (204, 205, 304, 413):
@@ -402,6 +431,28 @@ def features(case, idx):
     return ','.join(tags)
 
 
+def path_features(case, idx):
+    """classifier input for a handler-return-path exchange: result kind, what is raised where, the path"""
+    rq = case['reqs'][idx]
+    tags = []
+    if rq.get('exc'):      # exception classes as the three-way choice of the decision code groups them
+        group = {'Redirect': 'Redirect', 'ValueError': 'Exception'}.get(rq['exc']['cls'], 'HTTPException')
+        tags.append(f"raises={group}@{rq['exc']['at']}")
+    elif rq['path'] == 'nobody':
+        tags.append('no-handler')
+    else:
+        st = expected_status(rq)
+        if st < 200:
+            tags.append('1xx')
+        elif st in (204, 205, 304, 413):
+            tags.append(str(st))
+        tags.append(KIND_CLASS[rq['body']['kind']])
+    if idx > 0:
+        tags.append('after-' + case['reqs'][idx - 1]['method'])
+    tags.append('via=' + paths.path_token(rq))
+    return tags
+
+
 SHRUNK = {}
 
 
@@ -414,7 +465,9 @@ def evaluate(ctx, impl, cases, shrink=True):
         for i, rq in enumerate(c['reqs']):
             b = rq['body']
             status = expected_status(rq)
-            if b['kind'] == 'httperror' or rq.get('via'):
+            if rq.get('path'):
+                b = paths.effective_body(rq)
+            if b['kind'] == 'httperror' or rq.get('via') or rq.get('exc') or rq.get('path') == 'nobody':
                 prod = obs[i]['produced'] if i < len(obs) else None
                 body = prod if prod is not None else b''
                 mk, mparts, force = 'sized', ([body] if body else []), True
@@ -424,8 +477,10 @@ def evaluate(ctx, impl, cases, shrink=True):
                 force = False
             if rq.get('via') in ('dotdot', 'dot'):    # redirect(): Content-Type, then Location
                 hdrs = [('Content-Type', 'text/html'), ('Location', expected_location(rq, i))]
-            elif rq.get('via'):
+            elif rq.get('via') or rq.get('path') == 'nobody':
                 hdrs = []
+            elif (rq.get('exc') or {}).get('cls') == 'Redirect':   # handler's X-Case, then redirect(): Content-Type, Location
+                hdrs = [('X-Case', f't{i}'), ('Content-Type', 'text/html'), ('Location', expected_location(rq, i))]
             else:
                 hdrs = [('X-Case', f't{i}')] + ([('Content-Type', rq['ctype'])] if rq.get('ctype') else [])
             expects.append({'head': rq['method'] == 'HEAD', 'status': status, 'body': body, 'hdrs': hdrs})
@@ -445,6 +500,10 @@ def evaluate(ctx, impl, cases, shrink=True):
             ' '.join('{}:{}:{}:{}'.format(int(e['head']), e['status'], hx(e['body']),
                                           ','.join(hdr_tok(n, v) for n, v in e['hdrs']) or '-')
                      for e in expects)))
+        if c.get('kind') == 'path':      # the decision code on the observed events; the events the model expects
+            for i, rq in enumerate(c['reqs']):
+                o.append('pathstep ' + ' '.join(obs[i]['inputs'] if i < len(obs) else []))
+                o.append('pathtrace {} {} {}'.format(paths.path_token(rq), paths.kind_token(rq), paths.stage_token(rq)))
         ops.append(o)
         obs_all.append((obs, wire, first_close is not None, after))
         exp_all.append(expects)
@@ -480,8 +539,13 @@ def evaluate(ctx, impl, cases, shrink=True):
                 ctx.disagree(c, {'where': 'httpresp.serve', 'request': i, 'features': features(c, i),
                                  'impl': want[-400:], 'model': a[-400:], 'exc': obs[i]['exc'][:2]})
                 break
+        if c.get('kind') == 'path':
+            for i in range(min(n, len(obs))):
+                ok = paths.compare_events(ctx, c, i, obs[i], ans[n + 1 + 2 * i], ans[n + 2 + 2 * i],
+                                          features(c, i)) and ok
         # ---- C: spec on impl (Lean reader, then http.client)
-        failure = own_request_check(wire, c['reqs'], expects)
+        failure = (paths.one_response_check(obs) if c.get('kind') == 'path' else None) \
+            or own_request_check(wire, c['reqs'], expects)
         sp = ans[n]
         if sp.startswith('fail'):
             _f, clause, idx = sp.split()
@@ -516,6 +580,9 @@ def evaluate(ctx, impl, cases, shrink=True):
                             f'response {idx} on the connection: {clause}; requests: '
                             + '; '.join(f"{r['method']} {request_target(r, k)} HTTP/{r['ver']} conn={r.get('conn')} "
                                         f"status={r.get('status')} body={r['body']['kind']}"
+                                        + (f" path={paths.path_token(r)}"
+                                           + (f" raises {r['exc']['cls']} at {r['exc']['at']}" if r.get('exc') else '')
+                                           if r.get('path') else '')
                                         + (f"(read limits {r['body']['limits']}"
                                            f"{', Content-Length announced' if r['body'].get('clen') else ''})"
                                            if r['body']['kind'] in FILE_LIKE else '')
@@ -526,11 +593,14 @@ def evaluate(ctx, impl, cases, shrink=True):
                 ctx.count('method', rq['method'])
                 ctx.count('version', rq['ver'])
                 ctx.count('connection_header', rq.get('conn') or 'absent')
+                if rq.get('path'):
+                    paths.count_request(ctx, rq, obs[i])
                 ctx.count('body_kind', rq['body']['kind'] if not rq.get('via') else 'server page (' + rq['via'] + ')')
                 ctx.count('answered_by', {None: 'handler', 'dotdot': 'server: path guard 301 (/x/../c)',
                                           'dot': 'server: path guard 301 (/./c)',
                                           'unknown': 'server: no handler 404'}[rq.get('via')]
-                          if rq['body']['kind'] != 'httperror' or rq.get('via') else 'handler returns httperror')
+                          if rq['body']['kind'] != 'httperror' or rq.get('via') else 'handler returns httperror') \
+                    if not rq.get('path') else ctx.count('answered_by', 'handler-return path: ' + paths.path_token(rq))
                 if rq['body']['kind'] in FILE_LIKE and not rq.get('via'):
                     sizes = [len(p) for p in read_pieces(rq['body'], impl.bufsize)]
                     ctx.count('file_like_reads', rq['body']['kind'] + ': ' + (
@@ -586,7 +656,7 @@ def shrink_case(ctx, impl, case, failure):
     for rs, k in cands:
         if len(rs) >= len(reqs):
             continue
-        cand = {'kind': 'conn', 'reqs': rs}
+        cand = {'kind': case.get('kind', 'conn'), 'reqs': rs}
         got = violates(ctx, impl, cand)
         if got is not None:
             return cand, got[0], got[1]
@@ -1333,6 +1403,16 @@ def run(ctx):
                 '16/256/BUFSIZE/2*BUFSIZE and 70 KiB per kind and version; random sequences of 2-4 requests per '
                 'connection (12% of the requests self-answered); oracle clause on every connection: response k >= 1 '
                 'on a kept-alive connection is the answer to request k (status, X-Case tag, Location); '
+                'HANDLER-RETURN PATHS (cases of kind path; real HTTP + Dispatcher + Controller + plain request handler + '
+                'callee component, manager ticked until quiescent): directed: 11 paths (plain, plain-gen, plain-call, '
+                'plain-fire, plain-value, nobody, expose, expose-gen, expose-call, expose-wait, expose-fire) x callee delay '
+                '{0, 1, 3 ticks} where there is a callee x every result kind the path can carry (direct paths: str, bytes, '
+                'list, generator, streamed generator, file, httperror event, stream-flagged str / list / list-via-body, '
+                'short-read file-like; yielded pieces: several / one; values in a Value: str, bytes, list, file, empty str) '
+                'x 4 version/Connection flavours, GET and HEAD, 4 statuses; and every path x stage the application can '
+                'raise at (handler, after the first yield, callee) x {NotFound, Forbidden, Unauthorized, Gone(traceback=False), Redirect, '
+                'ValueError} x 4 flavours, a third of them after an ordinary request; each followed by a further request '
+                'through another path; random: connections of 2-4 requests with random path / body / delay, 25% raising; '
                 'non-trivial = every case (each is a full exchange); '
                 'distinct = distinct case; END-TO-END group (spec on impl only, no model comparison): a real '
                 'circuits.web.Server + Controller on 127.0.0.1:0 in a thread, SO_SNDBUF 64 KiB, driven by '
@@ -1362,7 +1442,17 @@ def run(ctx):
                     'e2e group: http.client.HTTPConnection/HTTPResponse as the independent client (HTTP/1.0 request '
                     'lines via its _http_vsn attributes), the loopback TCP stack of the kernel, a dup()ed socket '
                     'handle to observe the server side close']
-    ctx.assumptions += ['the application does not set Transfer-Encoding / Connection itself, and Content-Length only '
+    ctx.trusted += ['handler-return paths: the probe component (c15paths.Probe) classifies the value of request_success / '
+                    'request_value_changed / exception events with the same isinstance tests the decision code uses (it '
+                    'reads, never writes); error and redirect pages: the expected body is str(event) of the real httperror '
+                    'event (errors.py is not modelled), expected status / Location are computed from the case']
+    ctx.assumptions += ['handler-return paths: a handler that returns self.fire(e) whose handler is a coroutine (a promise) is a '
+                        'Controller method: request_value_changed is delivered to the component that fired (the Dispatcher '
+                        'for Controllers); a plain component returning such a Value has to handle request_value_changed '
+                        'itself (observed: otherwise no response is ever written) - not generated; a coroutine handler '
+                        'yields at least one piece; the callee does not return bool / None; an error triple that a handler '
+                        'obtains from v.errors is re-raised by the handler (not yielded as a result)',
+                        'the application does not set Transfer-Encoding / Connection itself, and Content-Length only '
                         'for a file-like stream body and then correctly (the serve_file pattern)',
                         'file-like bodies: read(n) returns at most n bytes and b\'\' only at the end of the data; '
                         'at most 600 reads per body (256 messages for the SEQPACKET pipe)',
@@ -1375,14 +1465,20 @@ def run(ctx):
                         'a large piece']
     corpus = ctx.corpus()
     groups = [[c for c in corpus if c.get('kind') != 'e2e'], keepalive_sequence_cases(), short_read_cases(ctx),
+              paths.directed_cases(SECOND), paths.random_cases(ctx, random_request),
               product_cases(),
               size_cases(ctx), sequence_cases(ctx)]
     e2e_evaluate(ctx, [c for c in corpus if c.get('kind') == 'e2e'])
-    for cases in groups:
+    names = ['corpus', 'keepalive sequences', 'short reads', 'handler-return paths (directed)',
+             'handler-return paths (random)', 'product', 'sizes', 'random sequences']
+    walls = ctx.extra.setdefault('group_wall_s', {})
+    for name, cases in zip(names, groups):
+        t0 = time.time()
         for i in range(0, len(cases), 200):
             evaluate(ctx, impl, cases[i:i + 200])
             if ctx.time_up():
                 return
+        walls[name] = round(walls.get(name, 0) + time.time() - t0, 2)
     e2e_cases(ctx)
 
 
